@@ -414,6 +414,25 @@ static void ProcessMacroArgs(tMacroArgCallback Callback, void* pUser) {
 /* Dieser Einleseprozessor dient nur dazu, eine fehlerhafte Makrodefinition
   bis zum Ende zu ueberlesen */
 
+/* KillCtrl() replaces every tab by up to eight blanks in place: make room first */
+
+static void KillCtrlDynStr(as_dynstr_t* p_str) {
+    size_t      need = strlen(p_str->p_str) + 1;
+    char const* p_run;
+
+    for (p_run = p_str->p_str; *p_run; p_run++) {
+        if (*p_run == Char_HT) {
+            need += 7;
+        }
+    }
+    if (need > p_str->capacity) {
+        as_dynstr_realloc(p_str, need);
+    }
+    if (need <= p_str->capacity) {
+        KillCtrl(p_str->p_str);
+    }
+}
+
 static void WaitENDM_Processor(void) {
     POutputTag Tmp;
 
@@ -518,7 +537,7 @@ static void MACRO_OutProcessor(void) {
         as_dynstr_t s;
 
         as_dynstr_ini_clone(&s, &OneLine);
-        KillCtrl(s.p_str);
+        KillCtrlDynStr(&s);
 
         /* compress into tokens */
 
@@ -1314,7 +1333,7 @@ static void IRP_OutProcessor(void) {
         as_dynstr_t s;
 
         as_dynstr_ini_clone(&s, &OneLine);
-        KillCtrl(s.p_str);
+        KillCtrlDynStr(&s);
         StringRecPtr l = FirstOutputTag->ParamNames;
         int          ParIter
                 = FirstOutputTag->Tag->ParIter == 0 ? 1 : FirstOutputTag->Tag->ParIter;
